@@ -200,3 +200,46 @@ Proof.
     + simpl. exact HL.
     + rewrite update_limiter_dec. reflexivity.
 Qed.
+
+(* ------------------------------------------------------------------ witnesses of the known findings *)
+(* "the limiter used for the last request of the history is not the one the precedence chain gives" *)
+Definition stale_after (pre : list op) (addr h cid : N) : Prop :=
+  let '(s, outs) := run (pre ++ [OReq addr h cid]) in
+  exists l, last outs OutNone = OutLim l /\
+            l_dec l <> fresh (h_rules s) addr h cid (aget addr (h_nodes s)).
+
+(* a cached client-id limiter serves another client id; a cached net limiter serves a client id with a rule *)
+Definition witness_clientid : list op :=
+  [OSetClientID (Some [(1, mkRM (Some 1) []); (2, mkRM (Some 2) [])]); OReq 0 0 1].
+Definition witness_net_then_clientid : list op :=
+  [OSetClientID (Some [(1, mkRM (Some 1) [])]); OSetNets (Some [(2, [0; 1; 2; 6], mkRM (Some 5) [])]); OReq 0 0 0].
+(* a cached node limiter survives the installation of a matching net rule *)
+Definition witness_ruleset_update : list op :=
+  [OSetNodes (Some [(0, mkRM (Some 4) [])]); OReq 0 0 0; OAddNode 0 0; OReq 0 0 0;
+   OSetNets (Some [(2, [0; 1; 2; 6], mkRM (Some 5) [])])].
+
+Lemma stale_clientid : stale_after witness_clientid 0 0 2.
+Proof. vm_compute. eexists. split; [reflexivity | discriminate]. Qed.
+Lemma stale_net_then_clientid : stale_after witness_net_then_clientid 0 0 1.
+Proof. vm_compute. eexists. split; [reflexivity | discriminate]. Qed.
+Lemma stale_ruleset_update : stale_after witness_ruleset_update 0 0 0.
+Proof. vm_compute. eexists. split; [reflexivity | discriminate]. Qed.
+
+(* the bucket is replaced when the decision switches between two rules: requests 1 and 3 are both decided by
+   the client-id rule 1, but are served by different rate.Limiter objects (each created full) *)
+Definition witness_switch : list op :=
+  [OSetClientID (Some [(1, mkRM (Some 1) [])]); OReq 0 0 1; OReq 0 0 0; OReq 0 0 1].
+
+Definition bucket_replaced (ops : list op) (i j : nat) : Prop :=
+  exists li lj, nth i (snd (run ops)) OutNone = OutLim li /\ nth j (snd (run ops)) OutNone = OutLim lj /\
+                l_dec li = l_dec lj /\ rule_is_real (d_rule (l_dec li)) = true /\ l_gen li <> l_gen lj.
+
+Lemma switch_replaces_bucket : bucket_replaced witness_switch 1 3.
+Proof. vm_compute. do 2 eexists. repeat split; try reflexivity. discriminate. Qed.
+
+(* and when the decisions of consecutive requests on a key name the same rule the bucket is kept *)
+Lemma update_keeps_bucket : forall l d now next,
+  l_gen l <> 0 -> d_rule (l_dec l) = d_rule d -> l_gen (fst (update_limiter l d now next)) = l_gen l.
+Proof.
+  intros l d now next Hg Hr. unfold update_limiter. apply N.eqb_neq in Hg. rewrite Hg, Hr, N.eqb_refl. reflexivity.
+Qed.
